@@ -219,6 +219,6 @@ CHECKS = {
         design="§6 C20, §7"),
 }
 
-HOOK_COMMITS = ["f8e83e6", "cb256e3"]
+HOOK_COMMITS = ["f8e83e6", "cb256e3", "b91a02d"]
 
 NOT_YET = {}
